@@ -54,8 +54,11 @@ def laplace_quantile(u, loc, scale):
 
 
 class Tape:
-    def __init__(self, answers=(), normal_values=None, uniform_menu=(0.0, 0.5, TOP), menu_policy=None, max_menu=720):
+    def __init__(self, answers=(), normal_values=None, uniform_menu=(0.0, 0.5, TOP), menu_policy=None, max_menu=720, wide_int_menu=None):
         self.answers = list(answers)
+        # integers over a range wider than max_menu (seed derivation): None -> delegated and counted as unmodelled; else a tuple
+        # of fractions of the range, the cell is a choice among those representatives
+        self.wide_int_menu = wide_int_menu
         self.normal_values = dict(normal_values or {})
         self.uniform_menu = tuple(uniform_menu)
         self.menu_policy = menu_policy
@@ -234,6 +237,11 @@ class _Draws:
     def _int_cell(self, low, high):
         n = int(high) - int(low)
         if n > self.tape.max_menu:
+            if self.tape.wide_int_menu is not None:
+                reps = sorted(set(min(n - 1, int(f * (n - 1))) for f in self.tape.wide_int_menu))
+                k, cell = self.tape.choose(self, "integers-wide", len(reps), {"lo": int(low), "hi": int(high)})
+                cell["value"] = int(low) + reps[k]
+                return cell["value"]
             self.tape.note_unmodelled("integers(range %d)" % n)
             return int(low) + int(self._real_int(n))
         k, cell = self.tape.choose(self, "integers", n, {"lo": int(low), "hi": int(high)})
